@@ -51,6 +51,9 @@ impl Property for C04 {
         }
         v
     }
+    fn fuzz_sequences(&self) -> Vec<(&'static str, usize)> {
+        vec![("/ops", 40)]
+    }
     fn run(&self, case: &History) -> Outcome {
         let mut out = Outcome::default();
         let mut w = World::new(&case.cfg);
